@@ -175,6 +175,16 @@ func registerIntrinsics(M map[string]Model) {
 		}
 		return m.ctx.Bool(b.owner == tag)
 	})
+	// GuardedBy(mu, p): the block (or map) p points to may only be written (maps: accessed) while mutex mu is held
+	I("GuardedBy", func(m *Machine, fr *Frame, a []Value) Value {
+		mu := m.simp(a[0].(*Term))
+		b := blockOf(m, a[1])
+		if b != nil && mu.IsConst() {
+			b = m.wblock(b)
+			b.guard = mu.Val
+		}
+		return nil
+	})
 	I("IsStatic", func(m *Machine, fr *Frame, a []Value) Value {
 		b := blockOf(m, a[0])
 		return m.ctx.Bool(b != nil && b.owner == "const" && b.readonly)
